@@ -8,16 +8,10 @@ from sa.core import AnalysisError, Repo, Report, call_name, kwarg, parent, unpar
 from sa.fold import Folder, Ref, Partial
 from sa.selftest import Edit, Variant
 
-EXPLANATION = (
-    "Skia computes the regions; what is decided is the plumbing that makes Skia compute the *right* operation: (R-TABLE) fill-rule names map "
-    "to the same-named Skia fill types, SVG commands to the same-named Skia builders and verbs back to the same letters, the three operations "
-    "pass their own PathOp; (def-use in _do_pathop) operand i is built with rule i, the fold is left to right over all remaining operands with "
-    "fix_winding, every path to the return passes a final simplify(fix_winding=True), no short-cut returns an operand unsimplified; "
-    "remove_overlaps/path_area build the path with the caller's rule before simplifying; the shape-level wrappers pair every operand with its "
-    "clip_rule (or the explicit rule list) positionally; (R-EFFECT) no handler for PathOpsError/Exception exists in the closure of the four "
-    "operations - the only two handlers in the package are the documented ones in stroke() and might_paint()."
-)
-ASSUMPTIONS = ["skia-pathops computes the set operation for the fill types it is given; simplify(fix_winding=True) yields a path whose nonzero and evenodd interiors coincide"]
+from sa.texts import T as _T
+
+EXPLANATION = _T["C13"]["explanation"] + " Not decided: " + _T["C13"]["not_decided"] + "."
+ASSUMPTIONS = _T["C13"]["assumptions"]
 P = "C13"
 
 
